@@ -25,7 +25,7 @@ LEVEL_NOTE = ('Table values from fixed + seed-derived alphabets. A request withi
 RULE = ("cases: (interpolator, n_ap, spacing, n_models, table unit); executions: one call per (request set, request unit), one evaluation per returned cell; non-trivial = distinct "
         "(case, request set, unit) with n_ap >= 2")
 ASSUMPTIONS = ["tables strictly increasing in aperture with ratio >= 1.05", "finite value alphabets"]
-REQUIRED_CLASSES = ['history-interpolate-after-change', 'on-knot', 'inside-segment', 'beyond-table', 'below-refused', 'single-aperture-repeated', 'other-unit', 'bare-numbers', 'mixture', 'single-element',
+REQUIRED_CLASSES = ['error-in-other-unit', 'history-interpolate-after-change', 'on-knot', 'inside-segment', 'beyond-table', 'below-refused', 'single-aperture-repeated', 'other-unit', 'bare-numbers', 'mixture', 'single-element',
                     'variable-at-filter-wavelength', 'variable-above-table', 'variable-on-largest-knot', 'conv', 'sed', 'sed-variable']
 TIMEOUT = {'quick': 300, 'thorough': 1200}
 
@@ -122,7 +122,11 @@ def _conv(ctx, case, rec):
     for sname, req in _request_sets(ap).items():
         for runit in ('table', 'AU', 'pc', 'cm', 'km'):
             ru = tunit if runit == 'table' else u.Unit(runit)
-            cf = ConvolvedFluxes(wavelength=2.2 * u.micron, model_names=names.copy(), apertures=(ap * u.au).to(tunit), flux=flux * u.mJy, error=err * u.mJy)
+            # the error array may be kept in another unit than the flux array (Jy vs mJy): same physical errors
+            eq = (err * u.mJy).to(u.Jy) if (n_ap + n_models) % 2 else err * u.mJy
+            cf = ConvolvedFluxes(wavelength=2.2 * u.micron, model_names=names.copy(), apertures=(ap * u.au).to(tunit), flux=flux * u.mJy, error=eq)
+            if eq.unit != u.mJy:
+                rec.cls('error-in-other-unit')
             q = (np.array(req) * u.au).to(ru)
             sub = {'set': sname, 'unit': runit}
             expect_refusal = sname.startswith('below') and n_ap > 1
